@@ -237,6 +237,10 @@ def run_variant(xvc, sc, variant):
             head, cwd = ["--skip-git"], rp.root
         elif variant == "sub":
             head, cwd = ["--skip-git"], rp.path(sc["cwd"]) if sc["cwd"] else rp.root
+        elif sc.get("idx", 0) % 2:
+            # -C as a RELATIVE path with `..` in it, from a sibling directory inside the repository
+            os.makedirs(rp.path("zz-elsewhere"), exist_ok=True)
+            head, cwd = ["-C", os.path.join("..", sc["cwd"]) if sc["cwd"] else "..", "--skip-git"], rp.path("zz-elsewhere")
         else:
             head, cwd = ["-C", rp.path(sc["cwd"]) if sc["cwd"] else rp.root, "--skip-git"], rp.base
         args = head + ["file", sc["kind"]] + sc["opts"]
@@ -335,7 +339,7 @@ def cmd_level(chk, xvc, replay=None):
             if d and reported < 4:
                 reported += 1
                 chk.fail("oracle", "`%s` run %s differs from `%s` at the root: %s" % (
-                    obs[v]["cmd"], "in " + sc["cwd"] if v == "sub" else "with -C from outside the repository", obs["root"]["cmd"], "; ".join(d[:4])),
+                    obs[v]["cmd"], "in " + sc["cwd"] if v == "sub" else "with -C from another directory", obs["root"]["cmd"], "; ".join(d[:4])),
                     {"input": sc, "variant": v, "differences": d[:20], "stderr_variant": obs[v]["stderr"], "stderr_root": obs["root"]["stderr"]},
                     name="paired")
     return dist
